@@ -8,6 +8,7 @@ import ast
 import collections
 import importlib
 import json
+import os
 import re
 import sys
 import time
@@ -158,6 +159,19 @@ def main(argv):
         pstat['confirmed'] += r.num_confirmed_paths
         return r
     core.analyze_calltree = act
+
+    def _too_many_give_ups():
+        r = {'lemma': target, 'name': meta.name, 'params': L.PARAMS, 'twin': twin, 'verdict': 'UNKNOWN',
+             'message': 'stopped after %d path(s) on which the harness gave up: %s' % (len(L.GIVE_UPS), sorted(set(L.GIVE_UPS))[:3]),
+             'give_ups': len(L.GIVE_UPS), 'paths': pstat['paths'], 'nontrivial_paths': pstat['nontrivial'],
+             'confirmed_paths': pstat['confirmed'], 'max_decisions': pstat['max_decisions'], 'solver_queries': sstat['queries'],
+             'solver_s': round(sstat['seconds'], 3), 'solver_unknown': sstat['unknown'], 'wall_s': round(time.time() - t0, 2),
+             'functions': sorted(called)}
+        print('RESULT ' + json.dumps(r))
+        sys.stdout.flush()
+        os._exit(0)
+    if not twin:
+        L.ON_GIVE_UP_LIMIT = _too_many_give_ups
 
     stats = collections.Counter()
     opts = AnalysisOptionSet(per_condition_timeout=timeout, per_path_timeout=per_path, report_all=True,
